@@ -287,7 +287,13 @@ class Scripted:
             raise make_exc(cls)
         if self.cur is None:
             raise FileNotFoundError("scripted: missing")
-        return json.loads(self.cur["content"])
+        doc = json.loads(self.cur["content"])
+        if self.tag_mode == "none" and isinstance(doc, dict):
+            # a document that is not JSON-serialisable (a YAML date scalar arrives like this): the engine cannot hash it, every such
+            # document has "no content tag" — they must still replace one another
+            import datetime as _dt
+            doc["issued"] = _dt.date(2024, 1, 1)
+        return doc
 
     def etag(self):
         return self._etag()
